@@ -907,6 +907,8 @@ func mpTranslate(pkg *spPkg, mi *msgInfo) (prog []string, failure string) {
 
 func engineMarshalProg(cfg config, o *out) {
 	schemas := loadSchemas()
+	cc := newClassCov("marshalprog")
+	defer cc.emit(o)
 	for _, si := range schemas {
 		o.raw("SCHEMA\t" + si.id + "\t=\t" + si.sexp())
 		r := newRng(cfg.seed, "marshalprog/"+si.id)
@@ -927,6 +929,7 @@ func engineMarshalProg(cfg config, o *out) {
 			o.kase("@MARSHALDEF", append(args, prog), "ok")
 			o.kase("MARSHALPROG", append(args, "eqb"), "same")
 			o.count("translated")
+			cc.message(si, mi)
 			o.nontrivial("prog/" + prog)
 			for _, form := range []string{"dec", "basei", "varpk", "declj"} {
 				o.hist["stmt_"+form] += strings.Count(prog, " "+form+" ") + strings.Count(prog, " "+form+")")
